@@ -31,7 +31,9 @@ REGISTRY = dict(
           "|y| = 1) the returned energy is the Rayleigh quotient <psi,H psi> of the returned state and "
           "|H psi - theta psi| = beta_j |y_j| = residual_norm; in finite dimension <psi,H psi> >= the smallest "
           "eigenvalue of op. Assumed: LAPACK eigh contract (validated on every recorded call), exact arithmetic "
-          "(loss of orthogonality in binary64 is measured by the oracle, not modelled)."),
+          "(loss of orthogonality in binary64 is measured by the oracle, not modelled). The public "
+          "krylov_energy_minimization is modelled with its own parameter list (public_wrapper_uses_callers_tolerances) and "
+          "driven with distinct tolerances in both orders; what it returns is checked against the caller's residual_tolerance."),
     note=("Trusted: Lean kernel + propext/Classical.choice/Quot.sound; Mathlib; hand-written Model.Krylov tied to the "
           "code by tape-driven/dense/single-step correspondence; torch.linalg.eigh, Tensor.norm, vdot and binary64 "
           "rounding are outside the theorems."),
